@@ -116,6 +116,30 @@ fn main() -> Result<(), Box<dyn std::error::Error>> {
         }
     }
 
+    // X3: query_unmapped on a file without unplaced records
+    {
+        let refs = vec![
+            fasta::Record::new(Definition::new("sq0", None), FaSequence::from(b"ACGTACGTAC".to_vec())),
+            fasta::Record::new(Definition::new("sq1", None), FaSequence::from(b"TTGACCAGTA".to_vec())),
+        ];
+        let repo = fasta::Repository::new(refs);
+        let mut w = cram::io::writer::Builder::default().set_reference_sequence_repository(repo.clone()).build_from_writer(Vec::new());
+        w.write_header(&header)?;
+        w.write_alignment_record(&header, &rec("on_sq0", 0, b"ACGT"))?;
+        w.try_finish(&header)?;
+        let bytes = w.into_inner();
+        let mut rd = cram::io::reader::Builder::default().set_reference_sequence_repository(repo).build_from_reader(std::io::Cursor::new(bytes));
+        let hh = rd.read_header()?;
+        let offset = rd.position()?;
+        let index: crai::Index = vec![crai::Record::new(Some(0), Position::new(1), 4, offset, 0, 0)];
+        let mut it = rd.query_unmapped(&hh, &index)?;
+        match it.next() {
+            None => println!("X3 query_unmapped on a file without unplaced records: no records"),
+            Some(Ok(_)) => println!("X3 query_unmapped: a record"),
+            Some(Err(e)) => println!("X3 query_unmapped on a file without unplaced records: Err({e}) - seeks to End(0), behind the EOF container, and reads a container header"),
+        }
+    }
+
     // G4-a: sequential reading again after the end of the stream was reached
     let n = r.records(&h).count();
     println!("G4-a after the query: records() to the end yields {n} more records");
